@@ -390,9 +390,9 @@ def _geometry(o, ctx, rho):
     if n == "ReferenceCellEdgeVectors":
         return c.ref_edge_vectors()
     if n == "FacetEdgeVectors":
-        return c.facet_edge_vectors()
+        return c.facet_edge_vectors(_facet(ctx))
     if n == "ReferenceFacetEdgeVectors":
-        return c.facet_edge_vectors(reference=True)
+        return c.facet_edge_vectors(_facet(ctx), reference=True)
     if n == "CellVolume":
         return c.volume()
     if n == "Circumradius":
@@ -684,15 +684,26 @@ def _conditional(o, ctx, rho):
     return sem(t, ctx, rho) if sem(c, ctx, rho) else sem(f, ctx, rho)
 
 
+def _tie(a, b):
+    """Both operands are the same constant: min/max is that constant."""
+    ja = isinstance(a, Jet) and not a.is_const()
+    jb = isinstance(b, Jet) and not b.is_const()
+    return not ja and not jb and close(const_of(a), const_of(b), mpf("1e-30"))
+
+
 @handler("MinValue")
 def _min(o, ctx, rho):
     a, b = (sem(x, ctx, rho) for x in o.ufl_operands)
+    if _tie(a, b):
+        return a
     return a if decide_lt(a, b) else b
 
 
 @handler("MaxValue")
 def _max(o, ctx, rho):
     a, b = (sem(x, ctx, rho) for x in o.ufl_operands)
+    if _tie(a, b):
+        return a
     return b if decide_lt(a, b) else a
 
 
